@@ -1,5 +1,6 @@
 import SaModel.Backend.Adapters
 import SaModel.Build.Finish
+import SaModel.Build.Guarded
 /-
 The builder model (`SaModel/Build`) as the serializing half of the adapters' `Core`: with it the marrow entry
 point of the adapter model IS the `to_marrow` model the build-side theorems (C01, C03, C05, C10, C11) speak about.
@@ -29,6 +30,12 @@ def addTo (ext : Ext) (root : B) : Add → R B
   | .push x => push ext root x
   | .extend x => extend ext root x
   | .viaSerializer x => serializeWith ext root x
+
+/-- what an addition checks before it reaches the builder (`Backend.stepG`): `push` / `extend` nothing, the `Serializer`
+wrapper that its value is a collection -/
+def addPre : Add → R Unit
+  | .viaSerializer x => serializerPre x
+  | _ => .ok ()
 
 /-- the builder model as the core of HISTORIES on one builder (`Backend/History.lean`): an item of a history is one
 `push` / `extend` / `Serializer` call, exactly the operations `Props/C10.lean` runs -/
